@@ -287,6 +287,21 @@ def run(chk):
                 "b'abc", "b'\\", "r'abc", "f'{'", "f'}'", "f'{}'", "f'{1'", "b'\\0'", "b'\\07'", "'\\U'", "'\\u'",
                 "b\"\\512\"", "'\\400' + b'\\400'"]:
         add(bad, "CERRANY")
+    # every position of every fixed-width escape filled with a character that a lenient number parser would take
+    # (a sign, a space, an underscore, a digit of another script, a letter past f)
+    for intro, width in [("\\x", 2), ("\\X", 2), ("\\u", 4), ("\\U", 8)]:
+        for pos in range(width):
+            for ch in ["+", "-", " ", "_", "g", "G", "\u0661", ".", "x"]:
+                digits = ["0"] * width
+                digits[-1] = "1"
+                if width == 8:
+                    digits = list("00000041")
+                digits[pos] = ch
+                add("'" + intro + "".join(digits) + "'", "CERRANY")
+                if width == 2:
+                    add("b'" + intro + "".join(digits) + "'", "CERRANY")
+    for bad in ["'\\1+1'", "'\\10+'", "'\\0 1'", "b'\\1_1'", "'\\1-1'", "b'\\01+'"]:
+        add(bad, "CERRANY")
     n_str = len(cases)
     # ---- byte strings ----------------------------------------------------------------------------
     for _ in range(300 if quick else 5000):
